@@ -50,8 +50,15 @@ func verifCopy(dst, src interface{}) bool {
 			return true
 		}
 	case *reportReq:
-		if s, ok := src.(*reportReq); ok {
+		switch s := src.(type) {
+		case *reportReq:
 			*d = *s
+			return true
+		case *calendarQuery:
+			*d = reportReq{Query: s}
+			return true
+		case *calendarMultiget:
+			*d = reportReq{Multiget: s}
 			return true
 		}
 	case *mkcolReq:
@@ -119,6 +126,7 @@ type verifBackend struct {
 	objects            []CalendarObject
 	calendars          []Calendar
 	getErr             func(path string) error
+	putResult          *CalendarObject
 	mutations          int
 }
 
@@ -180,6 +188,9 @@ func (b *verifBackend) PutCalendarObject(ctx context.Context, path string, calen
 	b.note("PutCalendarObject", path)
 	b.putCal, b.putOpts = calendar, opts
 	b.mutations++
+	if b.putResult != nil {
+		return b.putResult, nil
+	}
 	return &CalendarObject{Path: path}, nil
 }
 func (b *verifBackend) DeleteCalendarObject(ctx context.Context, path string) error {
